@@ -12,7 +12,13 @@ PROP = dict(
         "transform_collider_sphere (sphc), matrix3_inverse_mul/matrix2_inverse_mul (invmul), and refuse (MODEL-NE-SPEC) if the model "
         "evaluated on a table stub of the wrapped object does not give that value; bits.* kinds compare the Float run of the same model "
         "bit for bit with the Go methods on arbitrary doubles (rotations by angle included: rotation3_orthogonal / rotation2_orthogonal "
-        "discharge the ortho hypotheses); smart / meshxf3 compare the models of SmartSqueeze.Transform and of the MarchingCubesConj vertex map"
+        "discharge the ortho hypotheses); smart / meshxf3 compare the models of SmartSqueeze.Transform and of the MarchingCubesConj vertex map "
+        "(smart_squeeze_pieces / smart_squeeze_slope / smart_squeeze_rigid say what those pieces do); nest.* kinds (wrappers nested 2-4 deep, "
+        "op token 'N k t1..tk', t1 innermost): the driver folds the model's wrapper over the list and prints the right-hand side of the "
+        "single-wrap theorem for JoinedTransform{t1..tk}, justified by M3d.C05.nested_solid / nested_solid_conj / nested_sdf_metaball / "
+        "nested_collider / nested_collider_conj (+ nested_solid_sdf_metaball_2d, nested_collider_2d): the nested wrapper equals the wrapper "
+        "of the join in application order; prop:c05/nested_collider_hit_points and prop:c05/nested_collider_bounds evaluate the conjugacy "
+        "directly on the real outputs (hit points are the images of the inner hit points under t1;..;tk applied one by one)"
     ),
     rule=(
         "exact mode: every case is a line of small dyadic rationals; transforms are random primitives or (nested) joins of 0-4 of "
@@ -21,19 +27,30 @@ PROP = dict(
         "hook), AxisSqueeze with power-of-two ratios; wrapped objects are real Rect/Sphere/Triangle (2D: Rect/Circle/Segment) values and a "
         "recording stub collider; rays are aimed at the collider with non-unit directions; all Go float operations on these inputs are exact, "
         "outputs must be equal as rationals. One DistTransform in three is a 3-6 member join containing a reflection (negative uniform scale), a translation and an orthogonal matrix, possibly nested. bits mode: arbitrary doubles, real Rotation(axis,theta)/Rotation(theta) members, Go's own cos/sin/pow values passed to the Float model, results equal as IEEE bit patterns (-0 as +0). SmartSqueeze: overlapping, inverted, empty unsqueezable ranges and pinches. distinct = distinct operation lines; the #stat counters record kinds, negative scales, join "
-        "lengths, hit counts per collider kind"
+        "lengths, hit counts per collider kind. nested: TransformSolid/SDF/Metaball/Collider wrapped 2-4 times (2-D and 3-D) with members "
+        "that always contain a non-zero translation and a non-trivial linear member (scale != +-1, non-identity signed permutation / quarter "
+        "turn, reflecting join; for solids also per-axis scale, integer matrix, squeeze), shuffled, total scale shift <= 14 bits so that all "
+        "float64 operations stay exact; textbook cases translate/scale and translate/quarter-turn in both orders; #stat nestN.non-commuting "
+        "counts instances whose members do not commute at a probe point. small-scale matrices: integer matrices x 2^-k (k=14..30, |det| < 1e-12) "
+        "in exact mode through mat3/mat2 inv/invmul/mulcolinv, roundtrip, invdesc, solid, solidr, encl, nested solids; rotation x shear x "
+        "1e-5..1e-9 in bits mode through finvdesc, fapply, fsolidr"
     ),
     trusted=[
         "regenerated, not hand-written: lean/M3d/Gen/Kernels.lean (Go->Lean translator harness/hlib/go2lean, run on the current "
         "source on every check); M3d.KernelsTie.Transform.* re-prove against it that Apply/ApplyBounds/ApplyDistance of Translate, "
-        "Scale, VecScale, Matrix3Transform and the ortho wrapper and the Matrix3/Matrix2 algebra (Det, Inverse, MulColumn, "
-        "MulColumnInv, Mul, Transpose) are the clauses of Xf.apply/applyBounds/applyDistance and M3/M2 that the C05 theorems are "
-        "about; the translator is validated by execution against the real functions (C06 kind gk)",
+        "Scale, VecScale, Matrix3Transform and the ortho wrapper (3-D) and of model2d's Translate, Scale, VecScale, Matrix2Transform and ortho "
+        "wrapper (2-D, against Xf2), the Coord3D/Coord vector operations (Add Sub Scale Mul Recip Min Max Abs Dot Normalize MaxCoord), "
+        "the Matrix3/Matrix2 algebra (Det, Inverse, MulColumn, MulColumnInv, Mul, Transpose, NewMatrix3Columns), Coord3D.OrthoBasis and "
+        "NewMatrix3Rotation / NewMatrix2Rotation (math.Sqrt and math.Cos/Sin uninterpreted) are the clauses of Xf/Xf2 apply/applyBounds/"
+        "applyDistance, M3/M2, orthoBasis, rotation3, M2.rotation that the C05 theorems are about; Matrix3Transform/Matrix2Transform.ApplyBounds "
+        "(a loop) and the wrappers themselves are tied by the correspondence only; the translator is validated by execution against the real "
+        "functions (C06 kind gk)",
         "modelled, not verified: float64 arithmetic as exact field arithmetic (the theorems are exact identities; rounding error of Apply∘Inverse is not bounded)",
         "math.Sqrt is a parameter sqrtF of the model (hypothesis: sqrtF(x)^2 = x for x > 0; Float.sqrt in bits mode); math.Pow in AxisPinch is a parameter powF (hypotheses: monotone, pow 0 = 0, pow 1 = 1, pow(pow(x,p),1/p) = x), tied exactly for Power in {2, 1/2, 1} and bit-for-bit with Go's pow values for a sweep of powers",
         "wrapped Solid/SDF/Collider/Metaball are arbitrary functions (parameters of the model); their own correctness is C03/C06/C07",
         "math.Cos/math.Sin are inputs (c, s) of the rotation model under the hypothesis c^2+s^2 = 1 (true of real cos/sin, only approximately of the doubles)",
-        "SmartSqueeze.Transform: termination, validity, monotonicity and inverse are proved about the model; the slope-per-cell description is a Go-side predicate (prop:c05/smart_squeeze_piecewise_linear); the meshing inside MarchingCubesConj is not modelled (C01/C02), its solid and vertex map are; prop:c05/marching_cubes_conj checks the glue",
+        "SmartSqueeze.Transform: termination, validity, monotonicity, inverse, the shape of the pieces (ascending, inside the bounds, disjoint from every unsqueezable/pinch range, covering everything else) and the piecewise-linear action (slope = ratio on squeezed intervals, 1 elsewhere) are proved about the model, which the 'smart' kind ties to the code member by member; pinches inside it are AxisPinch members (math.Pow a parameter); prop:c05/smart_squeeze_piecewise_linear re-checks the slopes on the real code; the meshing inside MarchingCubesConj is not modelled (C01/C02), its solid and vertex map are; prop:c05/marching_cubes_conj checks the glue",
+        "nested colliders: nested_collider assumes the wrapped collider reports normals whose squared length is a perfect square (unit normals) and sqrtF exact on perfect squares (true of the driver's sqrtQ and of the real square root); normals of other lengths are renormalised at every level by the code and by the model alike (faithful kinds nest.outer)",
     ],
     assumptions=[
         "scale factors non-zero, determinants non-zero, squeeze Min<=Max and Ratio>0 (the library's own Inverse divides by them)",
@@ -46,11 +63,15 @@ PROP = dict(
         "exact change of distance for DistTransforms, TransformSolid is exactly the image (membership conjugacy), TransformSDF scales by the "
         "positive factor, TransformMetaball/VecScaleMetaball conjugacy and bound, TransformCollider: inner ray = (t^-1 o, L^-1 d), every ray "
         "point corresponds with the same parameter, hits = inner hits with same parameter/count/Extra and unit normal = normalised L n = "
-        "factor^2 L^-T n, nil callback safe, SphereCollision conjugacy. The model is tied to /repo on every run by exact-mode correspondence "
+        "factor^2 L^-T n, nil callback safe, SphereCollision conjugacy. Wrappers applied to wrappers (any depth) equal ONE wrapper of "
+        "JoinedTransform{t1..tn} in application order - solids (any invertible members), SDFs, metaballs, colliders (DistTransform members) - in "
+        "2-D and 3-D, so all of the above holds for nested instances with the composite transform. SmartSqueeze.Transform terminates, "
+        "squeezes exactly the material outside the unsqueezable ranges and acts with slope ratio / 1. The model is tied to /repo on every run by "
+        "regenerated definitions (61 tie theorems) and exact-mode correspondence "
         "with the real Go code on all these methods in 2D and 3D and by bit-exact Float runs on arbitrary doubles (rotations, pinch powers)."
     ),
     level_note=(
-        "Proved about lean/M3d/Model/{Transform,Transform2,SmartSqueeze}.lean; exactness over fields, not floats (rounding error is not bounded; "
+        "Proved about lean/M3d/Model/{Transform,Transform2,TransformNest,SmartSqueeze}.lean; exactness over fields, not floats (rounding error is not bounded; "
         "the bits mode shows the model performs the same float operations). cos/sin/pow are inputs under algebraic hypotheses. Meshing itself is C01/C02."
     ),
 )
